@@ -105,6 +105,10 @@ var allFeatures = []string{
 	"host_wl", "host_wc", "host_three", "host_2proc", "host_alloc_other", "reup", "host_enqueue_all",
 	// scalar loads of what the previous kernel stored (motif.go smemDev)
 	"smem_dev",
+	// 2-D grid with partial work-groups in X and Y (work-groups of 4 / 2 / 1
+	// wavefronts), many more groups than fit a small platform, per-work-group
+	// loop trip count (motif.go spinWG)
+	"wg_mixed",
 }
 
 // features that exist only for one architecture
@@ -1011,6 +1015,8 @@ func (x *gen) runScript(script []string) {
 			k.add(g.Waitcnt(a, 7, 15))
 		case scan(line, "alu %d", &a):
 			x.aluRun(a)
+		case scan(line, "spinwg %d %d", &a, &b):
+			x.spinWG(a, b)
 		case scan(line, "spin %d", &a):
 			// uniform scalar work loop (keeps the wavefront alive for a while)
 			top := k.label("spin")
@@ -1130,6 +1136,12 @@ func BuildProgram(spec ProgSpec) (prog *Program, err error) {
 		geo2 = &Launch{Grid: [3]uint32{uint32(n2 * w), 1, 1}, WG: [3]uint16{uint16(w), 1, 1}}
 	}
 	x.ldsPair = ldsPair
+	wgMixed := false
+	if rm := vlib.NewPRNG(spec.Seed).Fork("wgmixed/" + spec.Arch); allow["wg_mixed"] && spec.Geo == nil && spec.Script == nil && !force["xkernel"] &&
+		!oversub && !ldsPair && !spec.Lean && (spec.Arch != "cdna3" || allow["v5_ids_yz"]) && (force["wg_mixed"] || rm.Chance(1, 10)) {
+		wgMixed = true
+		geo = mixedGeo(rm)
+	}
 	geoUsed := x.used
 	prog.InSize = geo.slots()*112 + 256
 	{
@@ -1403,6 +1415,10 @@ func BuildProgram(spec ProgSpec) (prog *Program, err error) {
 		}
 		if k.inPrev && allow["smem_dev"] && spec.Script == nil && (force["smem_dev"] || r.Bool()) {
 			x.smemDev(0, -1, -1)
+		}
+		if wgMixed {
+			x.use("wg_mixed")
+			x.spinWG(10+x.r.Intn(20), 1+x.r.Intn(4))
 		}
 		if ldsPair {
 			x.use("multi_kernel")
